@@ -123,6 +123,9 @@ func availableHours(m *ledger.Model, in []coin.UxOut) (uint64, bool) {
 // transaction spends), and hard-invalid kinds.
 func (h *H) genTxn(m *ledger.Model) *txnPlan {
 	x := h.Rng.Intn(100)
+	if h.forceBig {
+		x = 56 // zero-fee
+	}
 	class := "valid"
 	switch {
 	case x < 45:
@@ -184,6 +187,30 @@ func (h *H) genTxn(m *ledger.Model) *txnPlan {
 		}
 		if in == nil {
 			class = "valid"
+			in = h.pickInputs(m, nIn, true, true)
+		}
+	case "zero-fee", "low-fee":
+		// on the huge-volume chains: spend the largest spendable output. The transaction breaks
+		// a soft rule, so it stays pooled, and the output's accrued hours stop being computable
+		// in 64 bits once enough head time has passed: a pooled transaction that turns
+		// hard-invalid by the passage of time alone (refresh / removal must see it)
+		if h.Chain.Volume >= 1<<62 && (h.forceBig || h.Rng.Intn(2) == 0) {
+			cand := h.pickInputs(m, 1<<20, true, true)
+			var best *coin.UxOut
+			for i := range cand {
+				if best == nil || cand[i].Body.Coins > best.Body.Coins {
+					best = &cand[i]
+				}
+			}
+			if best != nil {
+				if _, cls := ledger.Accrued(*best, m.HeadTime()); cls == ledger.AccrualOK {
+					in = []coin.UxOut{*best}
+					class += "/biggest-input"
+					h.R.Count("gen.biggest-input", 1)
+				}
+			}
+		}
+		if in == nil {
 			in = h.pickInputs(m, nIn, true, true)
 		}
 	default:
